@@ -204,6 +204,7 @@ func runPlan(c *pbt.Case, p Plan) {
 		px.Addr = "127.0.0.1:0"
 		px.PollTXIDTimeout = pollTimeout
 		px.PrimaryRedirectTimeout = 100 * time.Millisecond
+		px.HTTPTransport.DialContext = cluster.NoLingerDial
 		for _, s := range passthroughs {
 			px.Passthroughs = append(px.Passthroughs, regexp.MustCompile(s))
 		}
@@ -227,7 +228,9 @@ func runPlan(c *pbt.Case, p Plan) {
 		}
 		return wr.Err
 	}
-	client := &http.Client{Timeout: 10 * time.Second, CheckRedirect: func(*http.Request, []*http.Request) error { return http.ErrUseLastResponse }}
+	tr := &http.Transport{DialContext: cluster.NoLingerDial}
+	c.Cleanup(tr.CloseIdleConnections)
+	client := &http.Client{Transport: tr, Timeout: 10 * time.Second, CheckRedirect: func(*http.Request, []*http.Request) error { return http.ErrUseLastResponse }}
 	issued := ""
 	primaryUp := true
 	reads, waits, replays := 0, 0, 0
@@ -275,6 +278,7 @@ func runPlan(c *pbt.Case, p Plan) {
 				px.Target, px.DBName, px.Addr = old.Target, dbName, "127.0.0.1:0"
 				px.PollTXIDTimeout, px.PrimaryRedirectTimeout = pollTimeout, 100*time.Millisecond
 				px.Passthroughs, px.AlwaysForward = old.Passthroughs, old.AlwaysForward
+				px.HTTPTransport.DialContext = cluster.NoLingerDial
 				_ = old.Close()
 				if err := px.Listen(); err != nil {
 					c.Failf("C19/setup", "%v", err)
